@@ -79,7 +79,8 @@ def run(ctx):
     beh = ctx.path("c13_behaviours.jsonl")
     seen = set()
     counts = {}
-    cfgs = ["ClientConn_rows.cfg"] + (["ClientConn_seqmid4.cfg", "ClientConn_seqwide3.cfg"] if thorough else ["ClientConn_seq4.cfg"])
+    cfgs = ["ClientConn_rows.cfg"] + (["ClientConn_seqmid4.cfg", "ClientConn_seqwide3.cfg", "ClientConn_seqwide4_m4.cfg", "ClientConn_seqwide4_m66.cfg"]
+                                      if thorough else ["ClientConn_seq4.cfg"])
     for cfg in cfgs:
         res = ctx.tlc_must_pass("ClientConn", cfg, timeout=2400, name="export:" + cfg, workers=8)
         n = extract(res.output, beh, seen)
